@@ -14,7 +14,7 @@ RULE = ('dir: estimate_SIR_prob_size_from_dir_perc on EVERY labelled digraph wit
 ASSUMPTIONS = ['"a largest SCC": any of several equally large components is accepted']
 BUDGET = {'quick': 150, 'thorough': 1200}
 CHUNK = {'quick': 100, 'thorough': 300}
-REQUIRED = ['dir_checked', 'tie_scc_cases', 'est_checked', 'dest_checked', 'nm_checked', 'nmt_checked', 'arcs_rule_checked']
+REQUIRED = ['nm_mapping_form_defaultdict', 'nm_mapping_form_extra_keys', 'dir_checked', 'tie_scc_cases', 'est_checked', 'dest_checked', 'nm_checked', 'nmt_checked', 'arcs_rule_checked']
 INF = float('inf')
 
 
@@ -176,6 +176,24 @@ def run_case(case):
                 return x < z
             return x >= 0.5 and z <= 1.0
         exp = {(u, v): 1 for u in nodes for v in nbrs[u] if transmission(xi[u], zeta[v])}
+        # the documented argument is 'a dict: xi[u] gives the infectiousness of u': also mappings with a default for unlisted nodes, and
+        # dicts prepared for a larger population (keys that are not nodes of G)
+        import collections
+        form = r.choice(['dict', 'dict', 'defaultdict', 'extra_keys'])
+        bump(res, 'nm_mapping_form_' + form)
+        if form == 'defaultdict' and nodes:
+            def dd(full):
+                common = collections.Counter(full.values()).most_common(1)[0][0]
+                d = collections.defaultdict(lambda c=common: c)
+                d.update({u: w for u, w in full.items() if w != common})
+                return d
+            xi, zeta = dd(xi), dd(zeta)
+        elif form == 'extra_keys':
+            xi = dict(xi)
+            zeta = dict(zeta)
+            for extra in ('__not_a_node__', ('ghost', 1), -10 ** 6):
+                xi[extra] = 1.5
+                zeta[extra] = 2.0
         orig, tap = capture('nonMarkov_directed_percolate_network')
         sim.nonMarkov_directed_percolate_network = tap
         try:
